@@ -385,13 +385,13 @@ RunFlat(q, table, sch, cols) ==
           names |-> [j \in 1..cq.nvis |-> cq.ts[j].name],
           types |-> [j \in 1..cq.nvis |-> TypeOf(cq.ts[j].e, sch)],
           rows |-> Exec(fq, cq, table, sch)]
-Distinct(s) == \A i, j \in 1..Len(s) : i # j => s[i] # s[j]
+AllDistinct(s) == \A i, j \in 1..Len(s) : i # j => s[i] # s[j]
 RECURSIVE Run(_, _, _, _)
 Run(q, table, sch, cols) ==
     IF ~HasSub(q) THEN RunFlat(q, table, sch, cols)
     ELSE LET inner == Run(q.sub, table, sch, cols) IN
          IF ~inner.ok \/ inner.ood THEN inner
-         ELSE IF ~Distinct(inner.names) \/ Len(q.sub.pivot) # 0 THEN [inner EXCEPT !.ood = TRUE]   \* duplicate / pivoted inner names: not modelled
+         ELSE IF ~AllDistinct(inner.names) \/ Len(q.sub.pivot) # 0 THEN [inner EXCEPT !.ood = TRUE]   \* duplicate / pivoted inner names: not modelled
          ELSE LET n == Len(inner.names)
                   sch2 == [c \in SeqToSet(inner.names) |-> inner.types[PosIn(inner.names, c)]]
                   tab2 == [i \in 1..Len(inner.rows) |-> [c \in SeqToSet(inner.names) |-> inner.rows[i][PosIn(inner.names, c)]]]
